@@ -1,12 +1,12 @@
-(* PV.C05.Refuted — counter-models: one per guard conjunct that exists because the CODE fails.
-     dosing <> None        CompartmentalSystem.__eq__ evaluates dosing_compartments, which raises
-                           ValueError for a system without dose or central compartment, so
-                           from_dict(to_dict(cs)) == cs raises instead of being True
-                           (finding C05-EQ-RAISES-NO-DOSE);
-   and, shared with C12: to_dict is not a function of the == class (node order leaks).
-   Regression example of a FIXED defect (C05-SELF-FLOW, fix 34eef54): compartmental_matrix used to
-   subtract a self flow CENTRAL -> CENTRAL on the diagonal without adding it anywhere; the former
-   witness of mass_balance_refuted_selfloop now balances. *)
+(* PV.C05.Refuted — counter-models and regression examples.
+   No guard conjunct of C05 is refuted any more; both code defects found are fixed in /repo:
+     C05-SELF-FLOW (34eef54)          compartmental_matrix used to subtract a self flow CENTRAL -> CENTRAL on
+                                      the diagonal without adding it anywhere; the former witness of
+                                      mass_balance_refuted_selfloop now balances (selfloop_fixed);
+     C05-EQ-RAISES-NO-DOSE (876afb2)  CompartmentalSystem.__eq__ used to raise ValueError for a system without
+                                      dose or central compartment; the former witness of eq_raises_refuted now
+                                      compares equal to its serialisation round trip (nodose_eq_fixed).
+   Still refuted (shared with C12, not a C05 statement): to_dict is not a function of the == class. *)
 From Coq Require Import QArith ZArith NArith List Bool PArith Arith.
 From PV Require Import Base.PyData Base.Expr Base.Interp C05.Model C05.Proofs.
 Import ListNotations.
@@ -37,22 +37,19 @@ Example selfloop_fixed :
   = [Add (Add (Num 0) (Mul (Add (Num 0) (Neg (Sym sK))) (Sym sAC))) (Num 0)].
 Proof. repeat split; vm_compute; reflexivity. Qed.
 
-(* a system without dose: == raises on the serialisation round trip *)
+(* a system without dose: formerly == raised ValueError on the serialisation round trip *)
 Definition nodose_ops : list op := [OAddCompartment central_nodose; OAddFlow n_CENTRAL TOut (Sym sK)].
 
-Theorem eq_raises_refuted :
-  exists g t,
-    WF g /\ dosing_compartments g = None /\
-    ~ (exists s', from_dict (to_dict (g, t)) = Some s' /\ cs_eq s' (g, t) = Some true).
+Example nodose_eq_fixed :
+  dosing_compartments (build nodose_ops) = None /\
+  (exists s', from_dict (to_dict (build nodose_ops, Sym sT)) = Some s' /\ cs_eq s' (build nodose_ops, Sym sT) = true) /\
+  (* a dosed and an undosed system are still different, both ways *)
+  cs_eq (build nodose_ops, Sym sT) (build (OAddCompartment central :: tl nodose_ops), Sym sT) = false /\
+  cs_eq (build (OAddCompartment central :: tl nodose_ops), Sym sT) (build nodose_ops, Sym sT) = false.
 Proof.
-  exists (build nodose_ops), (Sym sT). split; [apply build_WF|]. split; [vm_compute; reflexivity|].
-  intros [s' [H1 H2]]. rewrite dict_roundtrip_lemma in H1 by apply build_WF. injection H1 as <-.
-  vm_compute in H2. discriminate.
+  split; [vm_compute; reflexivity|]. split; [|split; vm_compute; reflexivity].
+  eexists. split; [apply dict_roundtrip_lemma, build_WF | vm_compute; reflexivity].
 Qed.
-
-(* in general: for EVERY well-formed system without dosing compartment the comparison raises *)
-Theorem eq_raises_without_dose : forall g t, WF g -> dosing_compartments g = None -> cs_eq (g, t) (g, t) = None.
-Proof. exact cs_eq_raises_lemma. Qed.
 
 (* two == systems with different to_dict (shared with C12): the same two-compartment system entered
    CENTRAL, PERI and PERI, CENTRAL; and a system before / after set_lag_time(x); set_lag_time(0) *)
@@ -65,7 +62,7 @@ Definition two_ops_b : list op :=
 
 Theorem dict_order_refuted :
   exists ops1 ops2 t,
-    cs_eq (build ops1, t) (build ops2, t) = Some true /\ to_dict (build ops1, t) <> to_dict (build ops2, t).
+    cs_eq (build ops1, t) (build ops2, t) = true /\ to_dict (build ops1, t) <> to_dict (build ops2, t).
 Proof.
   exists two_ops_a, two_ops_b, (Sym sT). split; [vm_compute; reflexivity|]. vm_compute. discriminate.
 Qed.
@@ -73,7 +70,7 @@ Qed.
 Theorem dict_order_refuted_relabel :
   exists ops t,
     let ops' := ops ++ [OSetLag n_CENTRAL (Sym sALAG); OSetLag n_CENTRAL (Num 0)] in
-    cs_eq (build ops, t) (build ops', t) = Some true /\ to_dict (build ops, t) <> to_dict (build ops', t).
+    cs_eq (build ops, t) (build ops', t) = true /\ to_dict (build ops, t) <> to_dict (build ops', t).
 Proof.
   exists two_ops_a, (Sym sT). split; [vm_compute; reflexivity|]. vm_compute. discriminate.
 Qed.
